@@ -136,6 +136,60 @@ pub(crate) fn optimize(
     unreachable!()
 }
 
+/// Verification hook: price one *given* mode path with the planner's own cost model.
+///
+/// `path` lists `(characters left, mode)` pairs with strictly decreasing
+/// `characters left`; when that many characters are left the plan switches to
+/// `mode` (through the same `add_switches` the search uses), otherwise it steps.
+/// Returns the cost in whole codewords (rounded up, without `written`) the
+/// planner assigns to this path, or `None` if one of its plans can not process
+/// the path or the path switches where the search never branches (inside an
+/// "unbeatable" run). Nothing is pruned, so the result does not depend on the
+/// search.
+#[cfg(feature = "verif_hooks")]
+pub(crate) fn verif_price_path(
+    data: &[u8],
+    written: usize,
+    mode: EncodationType,
+    symbol_list: &SymbolList,
+    path: &[(usize, EncodationType)],
+) -> Option<usize> {
+    let mut plan = GenericPlan::for_mode(mode, data, written, symbol_list);
+    let mut next = 0usize;
+    for iteration in 0..=data.len() {
+        let rest_chars = data.len() - iteration;
+        while next < path.len() && path[next].0 > rest_chars {
+            next += 1;
+        }
+        let forced = if next < path.len() && path[next].0 == rest_chars && rest_chars > 0 {
+            let target = path[next].1;
+            next += 1;
+            if plan.current() != target {
+                Some(target)
+            } else {
+                None
+            }
+        } else {
+            None
+        };
+        if let Some(target) = forced {
+            // the search only branches where the step of the unswitched plan is not
+            // "unbeatable" (or impossible); elsewhere the path is outside its search space
+            if let Some(result) = plan.clone().step() {
+                if result.unbeatable {
+                    return None;
+                }
+            }
+            let mut list = Vec::new();
+            plan.add_switches(&mut list, rest_chars, iteration == 0, FlagSet::from(target));
+            plan = list.into_iter().next()?;
+        } else {
+            plan.step()?;
+        }
+    }
+    Some(plan.cost().verif_ceil_codewords())
+}
+
 // Only keep one minimizer for every start mode.
 fn remove_hopeless_cases(list: &mut Vec<GenericPlan>) {
     list.sort_unstable_by_key(Plan::cost);
